@@ -871,6 +871,18 @@ async fn resolve_delegation(
         {
             return Ok(None);
         }
+        // §31 holds for every link of a chain: the linked record proves what
+        // the intermediate delegator was given, not that it still holds it. A
+        // suspended or revoked Principal holds nothing, so what it re-delegated
+        // confers nothing either.
+        let delegator_live = store
+            .governance
+            .find_principal(&delegation.delegator_principal)
+            .await?
+            .is_some_and(|principal| principal.status == status::ACTIVE);
+        if !delegator_live {
+            return Ok(None);
+        }
         let Some(inherited) =
             Box::pin(resolve_delegation(store, space_id, &linked, depth + 1)).await?
         else {
